@@ -7,7 +7,7 @@ namespace BV.C04
 
 variable {A : UtxoAlg}
 
-theorem acked_indexed_aux (hA : A.Lawful) (cfg : Cfg) (ops1 ops2 : List Op) (nd0 : Node A)
+theorem acked_indexed_aux (hA : A.Lawful) (cfg : Cfg) (hp : cfg.prune = none) (ops1 ops2 : List Op) (nd0 : Node A)
     (h0 : recover cfg (Image.empty A) = .ok nd0) (b : Blk) (p : Chain)
     (hack : (deliver cfg (runOps cfg nd0 ops1) b p).2 = .okMain ∨
             (deliver cfg (runOps cfg nd0 ops1) b p).2 = .okSide)
@@ -17,13 +17,13 @@ theorem acked_indexed_aux (hA : A.Lawful) (cfg : Cfg) (ops1 ops2 : List Op) (nd0
   rw [r0] at h0
   have hnd : nd0' = nd0 := by injection h0
   subst hnd
-  have g1 := (runOps_spec hA cfg ops1 nd0' g0).1
-  obtain ⟨g2, _, hrow⟩ := deliver_spec hA cfg g1 b p
+  have g1 := (runOps_spec hA cfg hp ops1 nd0' g0).1
+  obtain ⟨g2, _, hrow⟩ := deliver_spec hA cfg hp g1 b p
   have hr := hrow hack
   rw [g2.core.img_eq] at hr
   rcases (rows_replay _ _ _).mp hr with h | h
   · simp [Image.empty, keys] at h
-  · have e3 := (runOps_spec hA cfg ops2 _ g2).2
+  · have e3 := (runOps_spec hA cfg hp ops2 _ g2).2
     obtain ⟨t, ht⟩ := e3.2.2.2.2
     rw [← ht, List.take_append, List.take_of_length_le hk]
     unfold rowKeys
@@ -37,14 +37,23 @@ theorem connectBlock_tip (cfg : Cfg) (nd : Node A) (n : Chain) (h : (connectBloc
   unfold connectBlock at h ⊢
   split
   · rename_i hc; simp [hc] at h
-  · simp only; rw [flushIfNeeded_tip]
+  · simp only
+    repeat' split
+    all_goals (simp only [flushIfNeeded_tip])
+
+theorem connectBlock_ok_of (cfg : Cfg) (nd : Node A) (n : Chain) (hc : ¬(n = [] ∨ n.tail ≠ nd.tip)) :
+    (connectBlock cfg nd n).2 = true := by
+  unfold connectBlock
+  rw [if_neg hc]
+  simp only
+  repeat' split
+  all_goals rfl
 
 theorem connectBlock_tip_false (cfg : Cfg) (nd : Node A) (n : Chain) (h : (connectBlock cfg nd n).2 = false) :
     (connectBlock cfg nd n).1.tip = nd.tip := by
-  unfold connectBlock at h ⊢
-  split
-  · rfl
-  · rename_i hc; simp [hc] at h
+  by_cases hc : n = [] ∨ n.tail ≠ nd.tip
+  · unfold connectBlock; rw [if_pos hc]
+  · rw [connectBlock_ok_of cfg nd n hc] at h; exact absurd h (by simp)
 
 theorem connectAll_tip (cfg : Cfg) (l : List Chain) : ∀ (nd : Node A), (connectAll cfg l nd).2 = true →
     (connectAll cfg l nd).1.tip = l.getLast?.getD nd.tip := by
@@ -233,6 +242,12 @@ def FreeAlg : UtxoAlg where
   conn b u := b :: u
   disc _ u := u.tail
 
+/-- The reason a start-up fails, if it fails. -/
+def recoverErr (r : Except Corrupt (Node A)) : Option Corrupt :=
+  match r with
+  | .error e => some e
+  | .ok _ => none
+
 /-- Final tip of the uninterrupted run of a workload on a fresh database. -/
 def plainTip (cfg : Cfg) (ops : List Op) : Option Chain :=
   match recover (A := A) cfg (Image.empty A) with
@@ -249,7 +264,7 @@ def crashTip (cfg : Cfg) (ops : List Op) (k : Nat) : Option Chain :=
     | .error _ => none
   | .error _ => none
 
-theorem converges_aux (hA : A.Lawful) (cfg₁ cfg₂ : Cfg) {base₁ base₂ : Image A} {nd₁ nd₂ : Node A}
+theorem converges_aux (hA : A.Lawful) (cfg₁ cfg₂ : Cfg) (hp₁ : cfg₁.prune = none) (hp₂ : cfg₂.prune = none) {base₁ base₂ : Image A} {nd₁ nd₂ : Node A}
     (g₁ : Good base₁ nd₁) (g₂ : Good base₂ nd₂) (b : Blk) (p : Chain)
     (h₁ : (deliver cfg₁ nd₁ b p).2 = .okMain) (h₂ : (deliver cfg₂ nd₂ b p).2 = .okMain)
     (v₁ : (deliver cfg₁ nd₁ b p).1.tip ≠ nd₁.tip) (v₂ : (deliver cfg₂ nd₂ b p).1.tip ≠ nd₂.tip) :
@@ -258,8 +273,8 @@ theorem converges_aux (hA : A.Lawful) (cfg₁ cfg₂ : Cfg) {base₁ base₂ : I
     (deliver cfg₁ nd₁ b p).1.tip = b :: p := by
   have t1 := deliver_okMain_tip cfg₁ nd₁ b p h₁ v₁
   have t2 := deliver_okMain_tip cfg₂ nd₂ b p h₂ v₂
-  have u1 := (deliver_spec hA cfg₁ g₁ b p).1.utxo_eq
-  have u2 := (deliver_spec hA cfg₂ g₂ b p).1.utxo_eq
+  have u1 := (deliver_spec hA cfg₁ hp₁ g₁ b p).1.utxo_eq
+  have u2 := (deliver_spec hA cfg₂ hp₂ g₂ b p).1.utxo_eq
   exact ⟨t1.trans t2.symm, by rw [u1, u2, t1, t2], t1⟩
 
 end BV.C04
